@@ -168,8 +168,8 @@ func TestC09(t *testing.T) {
 func TestC10(t *testing.T) {
 	run(t, spec{
 		id:    "C10",
-		rule:  "join/unite scripts with Timeout > 0 and an always-ready consumer (single element then silence, trickle slower than JoinSize per Timeout, bursts, inaccuracy 1..100); oracle in integers: (receive - accept) * d <= Timeout * (d+1) for every element; non-trivial = at least one element waited > 0 ns and was flushed in a non-maximal slice; distinct = distinct script JSON",
-		focus: Focus{NeedTO: true, ReadyOnly: true},
+		rule:  "join/unite scripts with Timeout > 0 (single element then silence, trickle slower than JoinSize per Timeout, bursts, inaccuracy 1..100), two thirds with an always-ready consumer, the rest with a consumer that delays and holds; oracle in integers: (receive - accept) * d <= Timeout * (d+1) for every element of a slice for which the consumer was ready (always, or already blocked in the receive before the first element of the slice was offered); non-trivial = at least one element waited > 0 ns and was flushed in a non-maximal slice; distinct = distinct script JSON",
+		focus: Focus{NeedTO: true, ReadyMost: true},
 		check: CheckC10,
 		nontriv: func(s Script, tr Trace) bool {
 			return MaxWait(tr) > 0 && ShortSlices(s, tr) > 0
